@@ -97,6 +97,13 @@ class CachedStore(Entity):
         # the order they became dirty, independent of PYTHONHASHSEED.
         self._dirty_keys: dict[str, None] = {}
 
+        # Miss-fill bookkeeping: a fetch from the backing store must not be
+        # cached if the key was written, deleted or invalidated while the
+        # fetch was in flight, or while a mutation of the key is still on its
+        # way to the backing store (the fetched value may predate it).
+        self._inflight_fetches: dict[str, list[list[bool]]] = {}
+        self._inflight_mutations: dict[str, int] = {}
+
         # Statistics
         self._reads = 0
         self._writes = 0
@@ -174,9 +181,22 @@ class CachedStore(Entity):
 
         # Cache miss - fetch from backing store
         self._misses += 1
-        value = yield from self._backing_store.get(key)
+        fetch = [True]  # cleared if the key is mutated while we are fetching
+        self._inflight_fetches.setdefault(key, []).append(fetch)
+        try:
+            value = yield from self._backing_store.get(key)
+        finally:
+            fetches = self._inflight_fetches[key]
+            fetches.remove(fetch)
+            if not fetches:
+                del self._inflight_fetches[key]
 
-        if value is not None:
+        if (
+            value is not None
+            and fetch[0]
+            and key not in self._cache
+            and not self._inflight_mutations.get(key)
+        ):
             # Cache the value
             self._cache_put(key, value)
 
@@ -196,13 +216,18 @@ class CachedStore(Entity):
             Write latency.
         """
         self._writes += 1
+        self._key_mutated(key)
 
         # Update cache
         self._cache_put(key, value)
 
         if self._write_through:
             # Write to backing store
-            yield from self._backing_store.put(key, value)
+            self._begin_mutation(key)
+            try:
+                yield from self._backing_store.put(key, value)
+            finally:
+                self._end_mutation(key)
         else:
             # Mark as dirty for later writeback
             self._dirty_keys[key] = None
@@ -221,10 +246,15 @@ class CachedStore(Entity):
             True if key existed in either cache or backing store.
         """
         existed_in_cache = key in self._cache
+        self._key_mutated(key)
         if existed_in_cache:
             self._cache_remove(key)
 
-        existed_in_store = yield from self._backing_store.delete(key)
+        self._begin_mutation(key)
+        try:
+            existed_in_store = yield from self._backing_store.delete(key)
+        finally:
+            self._end_mutation(key)
         return existed_in_cache or existed_in_store
 
     def invalidate(self, key: str) -> None:
@@ -233,6 +263,7 @@ class CachedStore(Entity):
         Args:
             key: The key to invalidate.
         """
+        self._key_mutated(key)
         if key in self._cache:
             self._write_back_if_dirty(key)
             self._cache_remove(key)
@@ -241,6 +272,8 @@ class CachedStore(Entity):
         """Clear the entire cache."""
         for key in list(self._dirty_keys):  # insertion order: the order the keys became dirty
             self._write_back_if_dirty(key)
+        for key in list(self._inflight_fetches):
+            self._key_mutated(key)
         self._cache.clear()
         self._dirty_keys.clear()
         self._eviction_policy.clear()
@@ -283,6 +316,21 @@ class CachedStore(Entity):
             self._eviction_policy.on_access(key)
 
         self._cache[key] = value
+
+    def _key_mutated(self, key: str) -> None:
+        """Tell in-flight miss fetches of ``key`` that their result is outdated."""
+        for fetch in self._inflight_fetches.get(key, ()):
+            fetch[0] = False
+
+    def _begin_mutation(self, key: str) -> None:
+        self._inflight_mutations[key] = self._inflight_mutations.get(key, 0) + 1
+
+    def _end_mutation(self, key: str) -> None:
+        remaining = self._inflight_mutations.get(key, 0) - 1
+        if remaining > 0:
+            self._inflight_mutations[key] = remaining
+        else:
+            self._inflight_mutations.pop(key, None)
 
     def _write_back_if_dirty(self, key: str) -> None:
         """Write a dirty entry to the backing store before it leaves the cache.
